@@ -342,11 +342,16 @@ class SmartServerRequestProtocolOne(SmartProtocolBase):
                 failure = request.FailedSmartServerResponse(
                     (b"error", str(protocol_error).encode("utf-8"))
                 )
+                # Bytes after the request line belong to whatever follows.
+                self.unused_data = self.in_buffer
+                self.in_buffer = b""
                 self._send_response(failure)
                 return
             except Exception as exception:
                 # everything else: pass to client, flush, and quit
                 log_exception_quietly()
+                self.unused_data = self.in_buffer
+                self.in_buffer = b""
                 self._send_response(
                     request.FailedSmartServerResponse(
                         (b"error", str(exception).encode("utf-8"))
